@@ -21,6 +21,10 @@ C19 - every accepted file can be checked and fixed without a crash or a hang (cr
                  idioms all of today's sites use: an enclosing try catching KeyError, a dominating `key in
                  mapping` test, a key that iterates over that very mapping, or an identical look-up earlier in
                  the function inside such a try (whose handler dealt with absence).
+  C19.attr       an attribute read on `self` whose name nothing in the program ever binds (no attribute store, no
+                 class-level name, no method, no constant setattr) raises AttributeError whenever it is
+                 evaluated; configuration cannot create attributes (configure_* only overwrite existing ones).
+                 Classes with a base outside the analysed program are exempt.
   C19.progress   every `while` loop in vsg/rules and vsg/vhdlFile/extract changes a variable of its
                  condition or leaves the loop on every path through its body.
   C19.unbound    cross-reference listing only (never an alarm): locals that are possibly unbound on some
@@ -124,6 +128,50 @@ def _user_keys(r, p, reach):
         raise AnalysisError("only %d computed-key look-ups in user-supplied mappings found" % n_sites)
 
 
+def _self_attrs(r, p):
+    bound = set()
+    for m in p.modules.values():
+        for n in ast.walk(m.tree):
+            if isinstance(n, ast.Attribute) and isinstance(n.ctx, ast.Store):
+                bound.add(n.attr)
+            elif isinstance(n, (ast.FunctionDef, ast.ClassDef)):
+                bound.add(n.name)
+                if isinstance(n, ast.ClassDef):
+                    for st in n.body:
+                        if isinstance(st, ast.Assign):
+                            for t in st.targets:
+                                if isinstance(t, ast.Name):
+                                    bound.add(t.id)
+                        elif isinstance(st, ast.AnnAssign) and isinstance(st.target, ast.Name):
+                            bound.add(st.target.id)
+            elif isinstance(n, ast.Call) and isinstance(n.func, ast.Name) and n.func.id == "setattr" and len(n.args) >= 2 and isinstance(n.args[1], ast.Constant):
+                bound.add(n.args[1].value)
+    if len(bound) < 300:
+        raise AnalysisError("only %d bound attribute names found" % len(bound))
+    n_reads = 0
+    for fi in sorted(p.functions.values(), key=lambda f: f.key):
+        if not fi.params or fi.params[0] != "self":
+            continue
+        external = False
+        if fi.cls is not None:
+            for c in fi.cls.mro or [fi.cls]:
+                if len(c.bases) != len(c.base_exprs) or any(b is None for b in c.bases):
+                    if [norm(b) for b in c.base_exprs] != ["object"]:
+                        external = True
+        for n in walk_function(fi.node):
+            if isinstance(n, ast.Attribute) and isinstance(n.ctx, ast.Load) and isinstance(n.value, ast.Name) and n.value.id == "self" and not n.attr.startswith("__"):
+                n_reads += 1
+                if n.attr in bound:
+                    continue
+                kk = "%s:self.%s" % (fi.key, n.attr)
+                if external or r.tabled("C19.attr", kk):
+                    r.ok("C19.attr", kk, "class has a base outside the analysed program / tabled", sample=False)
+                    continue
+                r.fail("C19.attr", kk, "`self.%s` is read in %s but no class, method, assignment or setattr anywhere in vsg binds an attribute of that name: AttributeError whenever this expression is evaluated" % (n.attr, fi.key), fi.loc(n))
+    r.extra["self_attribute_reads"] = n_reads
+    r.ok("C19.attr", "all", "%d attribute reads on self, every name is bound somewhere" % n_reads)
+
+
 def run(ctx):
     p = ctx.program
     cg = ctx.callgraph()
@@ -133,6 +181,7 @@ def run(ctx):
     r.rule("C19.shape", "no always-raising expression shapes")
     r.rule("C19.boundary", "ClassifyError/ConfigurationError boundary; classifier raises only ClassifyError")
     r.rule("C19.key", "computed-key look-ups in user-supplied mappings are guarded against a missing key")
+    r.rule("C19.attr", "every attribute read on self is bound somewhere in the program")
     r.rule("C19.progress", "while loops in rules/extract make progress")
     r.rule("C19.unbound", "possibly-unbound locals (listing only)")
     r.explanation = "Whole-program def-use over functions reachable from vsg.__main__:main / apply_rules; each rule's hits are individually triaged (fixed, known finding, or tabled with reason)."
@@ -140,6 +189,7 @@ def run(ctx):
     ar = p.function("vsg.apply_rules:apply_rules")
     reach = cg.reachable([main, ar])
     _user_keys(r, p, reach)
+    _self_attrs(r, p)
     # ------------------------------------------------------------------ none
     mn = nf.may_none(p)
     r.extra["functions_that_may_return_none"] = len(mn)
@@ -429,6 +479,8 @@ def _unbound_in(fi):
 
 
 VARIANTS = [
+    Variant("C19", "analysis reads a rule attribute nobody defines", "fire",
+            [("vsg/rules/previous_line.py", "            if isinstance(lTokens[0], parser.blank_line) or token_is_comment(lTokens[0]):\n                continue", "            if isinstance(lTokens[0], parser.blank_line) or (token_is_comment(lTokens[0]) and self.allow_comment):\n                continue")], rule="C19.attr"),
     Variant("C19", "fix_only look-up loses its KeyError guard", "fire",
             [("vsg/rule.py", "        try:\n            if \"all\" in dFixOnly[\"fix\"][\"rule\"][self.unique_id]:\n                return\n        except KeyError:\n            self.violations = []\n", "        dFixRules = dFixOnly[\"fix\"][\"rule\"]\n        if \"all\" in dFixRules.get(self.unique_id, []):\n            return\n"),
              ("vsg/rule.py", "            if oViolation.get_line_number() in dFixOnly[\"fix\"][\"rule\"][self.unique_id]:", "            if oViolation.get_line_number() in dFixRules[self.unique_id]:")], rule="C19.key"),
